@@ -2,13 +2,14 @@
 package main
 
 import (
-	"io"
 	"bytes"
 	crand "crypto/rand"
 	"crypto/sha256"
 	"errors"
 	"fmt"
+	"io"
 	"math"
+	mrand "math/rand"
 	"os"
 	"os/exec"
 	"path/filepath"
@@ -105,6 +106,7 @@ func main() {
 		handlerLists(r)
 		helper(r, mon)
 		entropyFaults(r, mon)
+		seededPRNG(r, mon)
 		// bit balance over all 64-byte challenges
 		if mon.n >= 1000 {
 			sigma := math.Sqrt(float64(mon.n)) / 2
@@ -607,13 +609,61 @@ func entropyFaults(r *ev.Run, mon *chalMon) {
 	}
 }
 
+// seededPRNG: the challenge does not come from the process's seedable general-purpose generator: seeding math/rand
+// with the same value before two runs (as any unrelated code in the process may do) must not make their challenges equal.
+func seededPRNG(r *ev.Run, mon *chalMon) {
+	c := r.Case("seeded-prng", 0)
+	if c == nil {
+		return
+	}
+	user := gen.Pool()[0]
+	r.Eval(1)
+	r.Guard(c, "seeded global PRNG", nil, func() {
+		kd, _ := gsrig.NewKeyDir()
+		defer kd.Remove()
+		kd.Write("alice.pub", gsrig.AuthorizedLine(user.Pub, ""))
+		gc, _, err := gsrig.GensignConfig(gsrig.Conf{PubKeyDir: kd.Path, Identifiers: map[string]string{"default": "d"}, ValiditySec: 60})
+		if err != nil {
+			r.Inconclusive(err.Error())
+			return
+		}
+		ag := wire.New()
+		defer ag.Close()
+		ag.Keyring.Add(agent.AddedKey{PrivateKey: user.Priv})
+		rig, err := gsrig.NewRig(ag, gc)
+		if err != nil {
+			r.Inconclusive(err.Error())
+			return
+		}
+		defer rig.Close()
+		var chal [][]byte
+		for run := 0; run < 2; run++ {
+			ag.ResetLog()
+			mrand.Seed(20260928) //nolint:staticcheck // deliberately the deprecated process-wide seeding
+			gsrig.Run(gsrig.Param(gsrig.ParamSpec{LogName: "alice", ReqUser: "u", ReqHost: "h", ClientIP: "1.2.3.4", TransID: gen.Ident(c.Rand, 10), Policy: "NONS"}), []gensign.Handler{rig.Handler}, &gsrig.Signer{Agent: ag})
+			_, signs := ag.Rec.Snapshot()
+			if len(signs) == 0 {
+				r.Count("seeded-prng: no challenge observed (not judged)", 1)
+				return
+			}
+			chal = append(chal, signs[0].Data)
+		}
+		if bytes.Equal(chal[0], chal[1]) {
+			r.Violation(c, "challenge-determined-by-global-prng-seed", fmt.Sprintf("after math/rand.Seed(20260928) two runs were sent the same challenge %x", chal[0]), nil)
+			return
+		}
+		r.Count("challenges independent of the math/rand seed", 2)
+		r.Nontrivial("seeded-prng")
+	})
+}
+
 // ---- handler lists -----------------------------------------------------------
 
 type stubHandler struct {
 	name      string
 	accept    bool
 	panics    bool
-	genFails  int // 0 no, 1 typed error, 2 plain error, 3 no keys and no error
+	genFails  int // 0 no, 1 typed error, 2 plain error, 3 no keys and no error (nil), 4 no keys and no error (empty slice)
 	authCalls int
 	genCalls  int
 	log       *[]string
@@ -647,6 +697,8 @@ func (s *stubHandler) Generate(*csr.ReqParam) ([]csr.AgentKey, error) {
 		return nil, errors.New("scripted generation failure (plain error)")
 	case 3:
 		return nil, nil
+	case 4:
+		return []csr.AgentKey{}, nil
 	}
 	return []csr.AgentKey{&stubKey{owner: s.name, log: s.log}}, nil
 }
@@ -734,7 +786,7 @@ func handlerLists(r *ev.Run) {
 	for n := 1; n <= 4; n++ {
 		for pos := 0; pos < n; pos++ {
 			for pat := 0; pat < 1<<uint(n-pos-1); pat++ {
-				for mode := 1; mode <= 3; mode++ {
+				for mode := 1; mode <= 4; mode++ {
 					c := r.Case("handlers-genfail", idx)
 					idx++
 					if c == nil {
